@@ -430,6 +430,25 @@ def render(template_text, flags=(), canary=False):
             for r_ in [x for x in args.get('rw', '').split(',') if x]:
                 txt, k = rewrite.REWRITES[r_](txt)
                 g.rewrites.append({'expr': ex.name, 'rule': r_, 'n': k})
+            # closure annotations inside the extracted expression:  closure<k>="PARAMS ;; RET ;; CONTRACT"
+            edits = []
+            for key in sorted(k for k in args if re.fullmatch(r'closure\d+', k)):
+                kth = int(key[len('closure'):])
+                parts = [x.strip() for x in args[key].split(';;')]
+                if len(parts) != 3:
+                    raise TemplateError('bad %s in //@expr: want "PARAMS ;; RET ;; CONTRACT"' % key)
+                cls = _find_closures(txt)
+                if kth < 1 or kth > len(cls):
+                    raise AnchorLost('expr %s has %d closures, wanted closure %d' % (ex.name, len(cls), kth))
+                cs, ce, cb, cend = cls[kth - 1]
+                edits.append((cs, ce, '|' + parts[0] + '| -> (' + parts[1] + ')'))
+                if cend is None:
+                    edits.append((cb, cb, ' ' + parts[2] + ' '))
+                else:
+                    edits.append((cb, cb, ' ' + parts[2] + ' { '))
+                    edits.append((cend, cend, ' }'))
+            for st_, en_, t_ in sorted(edits, key=lambda x: (-x[0], -x[1])):
+                txt = txt[:st_] + t_ + txt[en_:]
             emit(txt + '\n', block=(args.get('block') or ex.name, args.get('serves', '').split(',') if args.get('serves') else []))
             g.fn_blocks.add(args.get('block') or ex.name)
             i += 1
